@@ -5,15 +5,16 @@
 # apply, run the quick tier of the expected properties (mutants/index.json, or all four for patches
 # not listed there), replay every reported violation, revert. The scratch copy is removed at the end.
 OUT="$(realpath -m "$1")"; shift
+PATCHES=(); for p in "$@"; do PATCHES+=("$(realpath "$p")"); done
 SCR=$(mktemp -d /tmp/mut-XXXXXX)
 git -C /repo worktree add -q --detach "$SCR/repo" HEAD || exit 2
 mkdir -p "$SCR/verif"
-rsync -a --exclude sim/target --exclude .git --exclude replays --exclude evidence /verif/ "$SCR/verif/"
+rsync -a --exclude sim/target --exclude .git --exclude replays --exclude evidence "${VERIF_SRC:-/verif}/" "$SCR/verif/"
 sed -i "s|path = \"/repo\"|path = \"$SCR/repo\"|" "$SCR/verif/sim/Cargo.toml"
 cd "$SCR/verif"
 echo "[" > "$OUT"; first=1
-for patch in "$@"; do
-  patch=$(realpath "$patch"); name=$(basename "$patch" .diff)
+for patch in "${PATCHES[@]}"; do
+  name=$(basename "$patch" .diff)
   [ "$name" = "patch" ] && name=$(basename "$(dirname "$patch")")
   props=$(python3 - "$name" <<'PY'
 import json,sys
